@@ -1611,7 +1611,7 @@ class BitMaskedArrayType(ContentType):
             mask,
             content,
             self.valid_when,
-            len(content),
+            min(len(content), 8 * len(mask)),
             self.lsb_order,
             parameters=self.parameters,
         )
